@@ -580,6 +580,28 @@ func Floor(a *Term) *Term {
 	return t
 }
 
+// Raw is an SMT-LIB boolean expression given as text over in_<name> variables.
+func Raw(text string) *Term {
+	k := "raw:" + text
+	if t, ok := tp.tab[k]; ok {
+		return t
+	}
+	tp.next++
+	t := &Term{ID: tp.next, Sort: SBool, Op: "raw", Name: text}
+	tp.tab[k] = t
+	return t
+}
+
+// LookupVar finds a declared variable term by SMT name.
+func LookupVar(name string) *Term {
+	for _, s := range []Sort{SInt, SBool, SReal} {
+		if t, ok := tp.tab["v:"+s.String()+":"+strings.TrimPrefix(name, "")]; ok && t.Name == name {
+			return t
+		}
+	}
+	return nil
+}
+
 // UF application (used for RN).
 func App(sort Sort, fn string, args ...*Term) *Term {
 	return mk(sort, "@"+fn, args...)
@@ -627,6 +649,8 @@ func (t *Term) String() string {
 		}
 		return ratSMT(t.Rat, t.Sort)
 	case "v":
+		return t.Name
+	case "raw":
 		return t.Name
 	}
 	var sb strings.Builder
